@@ -1,4 +1,4 @@
-(* The reader model of C14 (Mdiff/ReaderModel.v) with its int arithmetic as a PARAMETER.
+(* The reader model of C14 (Mdiff/ReaderModel.v) with its int arithmetic as an argument.
 
    ReaderModel.v fixes Go's 64-bit wrap-around ([wrap64]) for the sums and differences the readers
    form from parsed numbers; the function translator's convention is unbounded Z (int overflow is
